@@ -62,6 +62,7 @@ func init() {
 			{"reader-input-only", "whether a parsed element is kept depends on the element, not on other state of the document under construction (dependence slice of the branch conditions inside the reader's element cases)", ruleReaderInputOnly},
 			{"attr-presence", "where the reader keeps an element only for a non-empty attribute, no library code builds that element with the attribute empty (regions of attr != \"\" tests vs composite literals)", ruleAttrPresence},
 			{"part-prov", "parts (pictures included) are stored exactly as read from the archive on Open", rulePartProv},
+			{"sectpr-singleton", "section settings are kept in one element: a second one is never appended (full search before the append), so none is lost when the body is written", ruleSectPrSingleton},
 			{"fresh-dep/media", "pictures keep their bytes when more are added after a reopen: media names come from a counter restored from the existing names on Open", ruleMediaFresh},
 			{"counter-numeric", "the restored image counter is a numeric maximum, not a lexicographic one", ruleCounterNumeric},
 		},
@@ -138,6 +139,7 @@ func init() {
 			{"sectpr-last", "shape of Body.MarshalXML", ruleSectPrLast},
 			{"no-element-cache", "no Document field other than Body points at body elements", ruleNoElementCache},
 			{"marshal-pure", "serialising does not modify the model (mutation summaries + append into a reslice of the receiver)", ruleMarshalPure},
+			{"sectpr-singleton", "a section-properties element is appended to the body only after all elements were searched for an existing one", ruleSectPrSingleton},
 			{"remove-typed", "RemoveParagraph* splice the body only at a position where a *Paragraph was found (ok-branch of the type assertion on that element, through finder helpers)", ruleRemoveTyped},
 		},
 		Assumptions: commonAssumptions,
@@ -188,6 +190,7 @@ func init() {
 			{"clone-alias", "rendered documents do not share header/footer reference objects with the template", ruleCloneAliasFor("SectionProperties", "HeaderFooterReference")},
 			{"alloc-scans-all", "the relationship id allocator's scanning loop has no early exit", ruleAllocScansAll},
 			{"rel-serialise-all", "every relationship of the in-memory list (the newest header/footer relationship included) is written to the relationship part on save", ruleRelSerialiseAll},
+			{"sectpr-singleton", "header/footer calls find the one section-properties element wherever it is (full search before a new one is appended)", ruleSectPrSingleton},
 		},
 		Assumptions: commonAssumptions,
 	}
@@ -200,6 +203,7 @@ func init() {
 			{"setter-scope", "convenience setters touch only their fields", ruleSetterScope},
 			{"err-atomic", "validate before write", ruleErrAtomicPage},
 			{"round-nearest", "mm→twips on the write path rounds to nearest (no truncating conversion)", ruleRoundNearest},
+			{"sectpr-singleton", "page-setting calls find the one section-properties element wherever it is (full search before a new one is appended)", ruleSectPrSingleton},
 			{"xml-object-total", "pgSz/pgMar/docGrid are rebuilt (or fully reassigned) by every SetPageSettings", ruleXMLObjectTotal},
 			{"schema-read/attr (section)", "the reader fills every attribute of pgSz, pgMar and docGrid from the attribute of the same name (same values after save and reopen)", filtered(ruleSchema, "PageSizeXML.", "PageMargin.", "DocGrid.", "SectionProperties.PageSize", "SectionProperties.PageMargins", "SectionProperties.DocGrid")},
 		},
